@@ -1349,6 +1349,23 @@ pub fn fam_resolve(tier: Tier) -> Vec<Config> {
             }
         }
     }
+    // "`--fail-fast` adds to the builder settings" on the parser-error path as well:
+    // whichever side asked for it, no feature is ingested after a parser error
+    for (ffb, ffc) in [(false, false), (true, false), (false, true), (true, true)] {
+        for lazy in [false, true] {
+            let mut c = base(String::new());
+            c.feats = vec![feat(vec![scen(&[], &[M])]), feat(vec![scen(&[], &[M])])];
+            c.items = vec![Item::Feat(0), Item::Err("e1".into()), Item::Feat(1)];
+            c.lazy = lazy;
+            c.fail_fast_builder = ffb;
+            c.fail_fast_cli = ffc;
+            c.plan.gates = GateMode::Steps;
+            c.bound = Some(2);
+            c.max_execs = 300;
+            c.name = format!("resolve/E|ff{}{}|lazy{}", u8::from(ffb), u8::from(ffc), u8::from(lazy));
+            out.push(c);
+        }
+    }
     out
 }
 
